@@ -374,7 +374,12 @@ func Run(tp *tape.Tape, env *engine.Env) *engine.Outcome {
 	if m.prop == "C01" {
 		mode = tape.Pick(tp, "mode", []string{"schedule", "fault", "schedule", "planted", "fault"})
 	}
-	m.ws = wsgen.New(tp, wsgen.Options{MaxModules: 3, MaxFiles: 10, Targeting: true, PlantError: mode == "planted", SupplyWKT: wktContent})
+	maxFiles := 10
+	if m.prop == "C02" && tp.Draw("bigws", 3) == 2 {
+		// check execution splits files into chunks per worker: needs many files to matter
+		maxFiles = 40
+	}
+	m.ws = wsgen.New(tp, wsgen.Options{MaxModules: 3, MaxFiles: maxFiles, Targeting: true, PlantError: mode == "planted", SupplyWKT: wktContent})
 	s.Event("case mode=%s modules=%d files=%d targets=%v", mode, len(m.ws.Modules), len(m.ws.Files), m.ws.Targets())
 
 	if m.prop == "C02" {
